@@ -4,6 +4,7 @@ package main
 
 import (
 	"fmt"
+	"sort"
 	"go/token"
 	"go/types"
 	"path"
@@ -183,6 +184,9 @@ func (e *Engine) callFunction(fr *Frame, st *State, fn *ssa.Function, binds []*V
 		if e.retryCall(fr, st, args, pos, k) {
 			return
 		}
+	}
+	if fr.depth == 0 && fr.fn == e.curFn && e.curC != nil {
+		e.atCallChecks(fr, st, name, args, pos)
 	}
 	if h, ok := intrinsics[name]; ok {
 		v, err := h(e, fr, st, args, pos)
@@ -990,4 +994,56 @@ func (e *Engine) borrowCheck(fr *Frame, st *State, v *Val, how string, pos token
 	}
 	o := e.addObligation(st, fr, "borrowed-slice", []string{"borrow"}, "a slice borrowed from "+lender+" (valid only until the next call) is "+how, e.posStr(pos), "false", nil)
 	o.Query = preamble + "(assert true)\n" // a dataflow fact of this path: decided syntactically, reported as a failed obligation
+}
+
+
+// atCallChecks: `atcall callee: expr` clauses of the function under verification are proof obligations at every
+// call of a function whose name ends in `.callee` (or equals it), evaluated in the caller's frame: locals are visible.
+func (e *Engine) atCallChecks(fr *Frame, st *State, callee string, args []*Val, pos token.Pos) {
+	matches := func(name, want string) bool {
+		return name == want || strings.HasSuffix(name, "."+want) || strings.HasSuffix(name, ")."+want)
+	}
+	for _, cl := range e.curC.AtCalls {
+		want, ord := cl.Callee, 0
+		if i := strings.Index(want, "@"); i >= 0 {
+			// callee@k: only the k-th static call site (in source order) of that callee in this function
+			fmt.Sscanf(want[i+1:], "%d", &ord)
+			want = want[:i]
+		}
+		if !matches(callee, want) {
+			continue
+		}
+		if ord > 0 {
+			var sites []token.Pos
+			for _, b := range fr.fn.Blocks {
+				for _, in := range b.Instrs {
+					if ci, ok := in.(ssa.CallInstruction); ok {
+						if sc := ci.Common().StaticCallee(); sc != nil && matches(sc.String(), want) {
+							sites = append(sites, ci.Pos())
+						}
+					}
+				}
+			}
+			sort.Slice(sites, func(a, b int) bool { return sites[a] < sites[b] })
+			if ord > len(sites) || sites[ord-1] != pos {
+				continue
+			}
+		}
+		ctx := e.loopCtx(fr, st, nil, false)
+		for i, a := range args {
+			ctx.vars[fmt.Sprintf("$arg%d", i+1)] = a // the call's arguments (receiver first)
+		}
+		v, err := ctx.evalAs(cl.E, sBool)
+		if err != nil {
+			if strings.Contains(err.Error(), "unknown identifier") {
+				// a local the clause mentions does not exist (yet) on this path: the clause is about the call
+				// sites where it does; a clause that is evaluated at no call site at all is an error (main.go)
+				continue
+			}
+			e.errorf("%s: atcall %s %q: %v", fr.fn, cl.Callee, cl.Src, err)
+			continue
+		}
+		e.atCallSeen[cl] = true
+		e.addObligation(st, fr, "atcall", cl.Tags, fmt.Sprintf("at call of %s: %s", cl.Callee, cl.Src), fmt.Sprintf("%s:%d", cl.File, cl.Line), v.T, nil)
+	}
 }
